@@ -178,7 +178,9 @@ RulesAuthorize(a, o) ==
       allowed == known /\ a.uri \in Reg[a.client].uris IN
   { <<"C03.authorize.target",   (o.class = "redirErr") => (allowed /\ o.target = a.uri)>>,
     <<"C03.authorize.login",    (o.class = "login") => allowed>>,
-    <<"C03.authorize.errorpage", (~allowed) => (o.class \in {"page", "json"} /\ o.status >= 400)>> }
+    <<"C03.authorize.errorpage", (~allowed) => (o.class \in {"page", "json"} /\ o.status >= 400)>>,
+    \* an error redirect carries the state the client sent with THIS request
+    <<"C11.state.authorize", (o.class = "redirErr") => o.state = a.state>> }
 
 RulesCallback(a, o) ==
   LET known == Has(reqs, a.req) IN
